@@ -789,10 +789,16 @@ func runC03(c *rt.Ctx) {
 			{"LatestVersion", 2, func(a, b string) (bool, error) { v, err := sem.LatestVersion(a, b); return v.IsZero(), err }},
 			{"Latest[[]byte,string]", 0, func(a, b string) (bool, error) { v, err := sem.Latest([]byte(a), b); return v.IsZero(), err }},
 			{"LatestTag[string,[]byte]", 1, func(a, b string) (bool, error) { v, err := sem.LatestTag(a, []byte(b)); return v.IsZero(), err }},
-			{"LatestVersion[[]byte,[]byte]", 2, func(a, b string) (bool, error) { v, err := sem.LatestVersion([]byte(a), []byte(b)); return v.IsZero(), err }},
+			{"LatestVersion[[]byte,[]byte]", 2, func(a, b string) (bool, error) {
+				v, err := sem.LatestVersion([]byte(a), []byte(b))
+				return v.IsZero(), err
+			}},
 			{"Compare", 0, func(a, b string) (bool, error) { _, err := sem.Compare(a, b); return err != nil, err }},
 			{"CompareTag", 1, func(a, b string) (bool, error) { _, err := sem.CompareTag(a, b); return err != nil, err }},
-			{"CompareVersion", 2, func(a, b string) (bool, error) { _, err := sem.CompareVersion[string, string](a, b); return err != nil, err }},
+			{"CompareVersion", 2, func(a, b string) (bool, error) {
+				_, err := sem.CompareVersion[string, string](a, b)
+				return err != nil, err
+			}},
 		}
 		for _, ca := range cores {
 			for _, cb := range cores {
